@@ -316,3 +316,140 @@ func structHasField(t types.Type, name string) bool {
 	}
 	return false
 }
+
+// ---------------------------------------------------------------------------------------------
+// lock balance and pairing
+
+type lockProblem struct {
+	Fn    *ssa.Function
+	Instr ssa.Instruction
+	Key   string // construct suffix
+	Msg   string
+}
+
+// lockOpKind classifies a call/defer as Lock, RLock, Unlock, RUnlock on the domain mutex of recvPath.
+func (d *lockDomain) lockOpKind(i ssa.Instruction, recvPath string) (string, bool) {
+	cc := callOf(i)
+	if cc == nil || cc.IsInvoke() {
+		return "", false
+	}
+	f, _ := cc.Value.(*ssa.Function)
+	if f == nil {
+		return "", false
+	}
+	kind := ""
+	switch funcFullName(f) {
+	case "(*sync.RWMutex).Lock", "(*sync.Mutex).Lock":
+		kind = "Lock"
+	case "(*sync.RWMutex).RLock":
+		kind = "RLock"
+	case "(*sync.RWMutex).Unlock", "(*sync.Mutex).Unlock":
+		kind = "Unlock"
+	case "(*sync.RWMutex).RUnlock":
+		kind = "RUnlock"
+	default:
+		return "", false
+	}
+	if len(cc.Args) == 0 || strings.TrimPrefix(accessPath(cc.Args[0]), "&") != recvPath+"."+d.mutex {
+		return "", false
+	}
+	return kind, true
+}
+
+// balance checks, for every method of the domain: (pairing) Unlock only when write-locked, RUnlock only when
+// read-locked, Lock/RLock only when unlocked (sync mutexes are not re-entrant); (balance) every return leaves the
+// mutex in the state the method was entered with, deferred unlocks applied in LIFO order. A state that is not a single
+// value at one of these points (lock held on some paths only) is reported as well.
+func (d *lockDomain) balance() (problems []lockProblem, sites int) {
+	for _, f := range d.funcs {
+		if f.Blocks == nil || d.entry[f] == 0 {
+			continue
+		}
+		rp := recvPathOf(f)
+		name := shortName(f)
+		var defers []ssa.Instruction
+		allInstrs(f, func(i ssa.Instruction) {
+			kind, ok := d.lockOpKind(i, rp)
+			if !ok {
+				return
+			}
+			if _, isD := i.(*ssa.Defer); isD {
+				defers = append(defers, i)
+				return
+			}
+			if _, isG := i.(*ssa.Go); isG {
+				return
+			}
+			sites++
+			st := d.before[i]
+			switch kind {
+			case "Unlock":
+				if st != lsW {
+					problems = append(problems, lockProblem{f, i, name + "/Unlock", "Unlock while the mutex may be " + st.String() + " (fatal 'unlock of unlocked mutex', or releases a lock taken with RLock)"})
+				}
+			case "RUnlock":
+				if st != lsR {
+					problems = append(problems, lockProblem{f, i, name + "/RUnlock", "RUnlock while the mutex may be " + st.String()})
+				}
+			case "Lock", "RLock":
+				if st != lsU {
+					problems = append(problems, lockProblem{f, i, name + "/" + kind, kind + " while the mutex may already be " + st.String() + " (self-deadlock: sync mutexes are not re-entrant)"})
+				}
+			}
+		})
+		for _, r := range returnsOf(f) {
+			sites++
+			st := d.before[r]
+			bad := ""
+			// deferred unlocks that were registered on every path to this return, LIFO
+			for k := len(defers) - 1; k >= 0; k-- {
+				df := defers[k]
+				if !instrDominates(df, r) {
+					if reaches(df, r) {
+						bad = "a deferred unlock is registered on some paths to this return only"
+					}
+					continue
+				}
+				kind, _ := d.lockOpKind(df, rp)
+				switch {
+				case kind == "Unlock" && st == lsW, kind == "RUnlock" && st == lsR:
+					st = lsU
+				case kind == "Unlock" || kind == "RUnlock":
+					bad = "deferred " + kind + " runs while the mutex may be " + st.String()
+				default:
+					st = map[string]lockState{"Lock": lsW, "RLock": lsR}[kind]
+				}
+			}
+			if bad == "" && st != d.entry[f] {
+				bad = "returns with the mutex " + st.String() + " but was entered with it " + d.entry[f].String() + " (a leaked lock blocks every later operation on this object)"
+			}
+			if bad != "" {
+				problems = append(problems, lockProblem{f, r, name + "/return", bad})
+			}
+		}
+	}
+	return problems, sites
+}
+
+// ruleLockBalance registers the balance obligations of a domain under rule id.
+func ruleLockBalance(c *Ctx, d *lockDomain, what string) {
+	problems, sites := d.balance()
+	seen := map[string]bool{}
+	for _, p := range problems {
+		seen[p.Key] = true
+		c.bad(p.Key, d.u.ipos(p.Instr), what+": "+p.Msg)
+	}
+	for _, f := range d.funcs {
+		if f.Blocks == nil || d.entry[f] == 0 {
+			continue
+		}
+		for _, k := range []string{"/return"} {
+			if !seen[shortName(f)+k] {
+				c.ok(shortName(f)+k, d.u.pos(f.Pos()), "lock operations paired and balanced on every path")
+			}
+		}
+	}
+	if sites == 0 {
+		c.bad(what+"/sites", "", "no lock operation found in the domain")
+	}
+}
